@@ -1,8 +1,153 @@
-// Modes `lex` and `uclass` (stub; filled in with the lexer correspondence).
-pub fn line(_line: &str) -> String {
-    "not-implemented".into()
+// Modes `lex` and `uclass`: the real lexer (`oq3_lexer::tokenize`), `LexedStr::new` and
+// `LexedStr::to_input` on one case line, printed in the canonical I1/I2 form
+// (see /verif/DESIGN.md §2.1 and /verif/lean/Oq3/Driver/Lex.lean, which prints the model's view
+// in exactly the same form).
+use crate::codec::last_panic;
+use oq3_lexer::{Base, LiteralKind, TokenKind};
+use oq3_parser::LexedStr;
+use std::panic::{catch_unwind, AssertUnwindSafe};
+use unicode_properties::UnicodeEmoji;
+use unicode_xid::UnicodeXID;
+
+fn b01(b: bool) -> &'static str {
+    if b {
+        "1"
+    } else {
+        "0"
+    }
 }
 
-pub fn uclass(_line: &str) -> String {
-    "not-implemented".into()
+fn show_base(b: Base) -> &'static str {
+    match b {
+        Base::Binary => "2",
+        Base::Octal => "8",
+        Base::Decimal => "10",
+        Base::Hexadecimal => "16",
+    }
+}
+
+fn show_lit(k: &LiteralKind) -> String {
+    match *k {
+        LiteralKind::Int { base, empty_int } => {
+            format!("Lit.Int.{}.{}", show_base(base), b01(empty_int))
+        }
+        LiteralKind::Float {
+            base,
+            empty_exponent,
+        } => format!("Lit.Float.{}.{}", show_base(base), b01(empty_exponent)),
+        LiteralKind::Byte { terminated } => format!("Lit.Byte.{}", b01(terminated)),
+        LiteralKind::Str { terminated } => format!("Lit.Str.{}", b01(terminated)),
+        LiteralKind::BitStr {
+            terminated,
+            consecutive_underscores,
+        } => format!(
+            "Lit.BitStr.{}.{}",
+            b01(terminated),
+            b01(consecutive_underscores)
+        ),
+    }
+}
+
+fn show_raw(k: &TokenKind, len: u32) -> String {
+    match k {
+        TokenKind::BlockComment { terminated } => {
+            format!("BlockComment.{}:{}", b01(*terminated), len)
+        }
+        TokenKind::OpenQasmVersionStmt { major, minor } => {
+            format!("OpenQasmVersionStmt.{}.{}:{}", b01(*major), b01(*minor), len)
+        }
+        TokenKind::Literal { kind, suffix_start } => {
+            format!("{}:{}:{}", show_lit(kind), len, suffix_start)
+        }
+        // all remaining variants are field-less: the Debug form is the variant name
+        other => format!("{:?}:{}", other, len),
+    }
+}
+
+fn decode(line: &str) -> Option<String> {
+    let l = line.trim();
+    if l.is_empty() {
+        return Some(String::new());
+    }
+    let mut s = String::new();
+    for h in l.split('.') {
+        let n = u32::from_str_radix(h, 16).ok()?;
+        s.push(char::from_u32(n)?);
+    }
+    Some(s)
+}
+
+fn raw_stream(text: &str) -> Vec<String> {
+    oq3_lexer::tokenize(text)
+        .map(|t| show_raw(&t.kind, t.len))
+        .collect()
+}
+
+fn run(text: &str) -> String {
+    let raw1 = raw_stream(text);
+    let raw2 = raw_stream(text);
+    if raw1 != raw2 {
+        return "nondet".to_string();
+    }
+    let lexed = LexedStr::new(text);
+    let n = lexed.len();
+    // `kind(i)` asserts `i < len()`; the EOF sentinel sits at index `len()` and is not
+    // reachable through `kind`; its presence is implied by `len() = kind.len() - 1` and its
+    // start is `text_start(len())`.
+    let mut kinds: Vec<String> = (0..n).map(|i| format!("{:?}", lexed.kind(i))).collect();
+    kinds.push("EOF".to_string());
+    let starts: Vec<String> = (0..=n).map(|i| lexed.text_start(i).to_string()).collect();
+    let errors: Vec<String> = lexed.errors().map(|(i, _)| i.to_string()).collect();
+    // exercise the slicing accessors for every token (a panic is reported as PANIC)
+    for i in 0..n {
+        let r = lexed.text_range(i);
+        let t = lexed.text(i);
+        if t.len() != lexed.text_len(i) || &text[r] != t {
+            return "accessor-mismatch".to_string();
+        }
+    }
+    let input = lexed.to_input();
+    let inp: Vec<String> = (0..input.verif_len())
+        .map(|i| {
+            format!(
+                "{:?}{}",
+                input.verif_kind(i),
+                if input.verif_is_joint(i) { "+" } else { "" }
+            )
+        })
+        .collect();
+    format!(
+        "raw={};kinds={};starts={};errors={};input={};ok=1",
+        raw1.join(","),
+        kinds.join(","),
+        starts.join(","),
+        errors.join(","),
+        inp.join(",")
+    )
+}
+
+pub fn line(line: &str) -> String {
+    let text = match decode(line) {
+        Some(t) => t,
+        None => return "bad-case".to_string(),
+    };
+    match catch_unwind(AssertUnwindSafe(|| run(&text))) {
+        Ok(s) => s,
+        Err(_) => format!("PANIC {}", last_panic()),
+    }
+}
+
+pub fn uclass(line: &str) -> String {
+    let l = line.trim();
+    let c = match u32::from_str_radix(l, 16).ok().and_then(char::from_u32) {
+        Some(c) => c,
+        None => return "bad-case".to_string(),
+    };
+    format!(
+        "{:x} {}{}{}",
+        c as u32,
+        b01(UnicodeXID::is_xid_start(c)),
+        b01(UnicodeXID::is_xid_continue(c)),
+        b01(c.is_emoji_char())
+    )
 }
